@@ -1,6 +1,7 @@
 import Mixin.Model.MintAccept
 import Mixin.Props.C25
 import Mixin.Props.C29
+import Mixin.Props.C29Accept
 /-!
 # C25 at the acceptance level — what every ACCEPTED mint snapshot satisfies
 
@@ -214,6 +215,25 @@ theorem accepted_mints_cumulative_le_pool {b0 last total : Nat} (h : AcceptedRun
       refine ⟨by omega, ?_⟩
       rw [hc, hsum]; omega
   exact ⟨key.1, key.2, by rw [key.2]; exact cumulative_le_pool_params last⟩
+
+/-! ## the time a mint snapshot is validated at -/
+
+/-- A mint snapshot with a timestamp is validated at that timestamp by every node, whatever
+    its clock: two nodes (the proposer later included) reach the same decision. -/
+theorem mint_decision_independent_of_clock (self₁ clock₁ self₂ clock₂ snapNode snapTs : Nat) (hts : snapTs ≠ 0)
+    (env : MintEnv) (tx : MintTx) :
+    validateMintSnap self₁ clock₁ env snapNode snapTs tx = validateMintSnap self₂ clock₂ env snapNode snapTs tx := by
+  unfold validateMintSnap
+  rw [Mixin.C29.operation_time_is_snapshot_time self₁ clock₁ snapNode snapTs (Or.inl hts),
+    Mixin.C29.operation_time_is_snapshot_time self₂ clock₂ snapNode snapTs (Or.inl hts)]
+
+/-- `accepted_mint_follows_schedule` for a timestamped snapshot: the schedule, window and election
+    are those of the snapshot's timestamp. -/
+theorem accepted_mint_snapshot_at_its_timestamp {self clock snapNode snapTs : Nat} (hts : snapTs ≠ 0)
+    {env : MintEnv} {tx : MintTx} (h : validateMintSnap self clock env snapNode snapTs tx = .accept) :
+    validateMint env snapNode snapTs tx = .accept := by
+  unfold validateMintSnap at h
+  rwa [Mixin.C29.operation_time_is_snapshot_time self clock snapNode snapTs (Or.inl hts)] at h
 
 /-! ### non-vacuity: the model accepts a kernel-built mint and rejects a changed amount -/
 
